@@ -57,7 +57,7 @@ var aggSteps = []model.Step{
 	{Op: "aggregate", Aggs: []model.Agg{{Name: "c", Kind: "count"}}},
 	{Op: "aggregate", Aggs: []model.Agg{{Name: "t", Kind: "term", Field: "k"}}},
 	{Op: "aggregate", Aggs: []model.Agg{{Name: "t", Kind: "term", Field: "_label"}, {Name: "c", Kind: "count"}}},
-	{Op: "aggregate", Aggs: []model.Agg{{Name: "t", Kind: "term", Field: "s", Size: 1}}},
+	{Op: "aggregate", Aggs: []model.Agg{{Name: "t", Kind: "term", Field: "s"}}},
 }
 
 // elementPrefixes lists the lengths k >= 1 such that steps[:k] ends on a vertex/edge type.
@@ -80,15 +80,15 @@ func genSubmit(rt *rapid.T, jobs []*gjob, graph int) (steps, natural []model.Ste
 		kind = 0
 	}
 	switch kind {
-	case 0, 1, 2, 3, 4:
-		T := gen.Traversal(rt, gen.TravOpts{MaxLen: 7, NoOrder: rapid.IntRange(0, 4).Draw(rt, "noOrder") != 0, RowCountHint: 5})
+	case 0, 1, 2, 3:
+		T := gen.Traversal(rt, gen.TravOpts{MaxLen: 6, NoOrder: rapid.IntRange(0, 4).Draw(rt, "noOrder") != 0, RowCountHint: 5})
 		ks := elementPrefixes(T)
 		if len(ks) > 0 && rapid.Bool().Draw(rt, "split") {
 			k := rapid.SampledFrom(ks).Draw(rt, "splitAt")
 			return cp(T[:k]), cp(T[k:])
 		}
 		return T, nil
-	case 5, 6, 7:
+	case 4, 5, 6, 7:
 		// sized family: V()/E() x every result type
 		st := model.S(rapid.SampledFrom([]string{"V", "V", "E"}).Draw(rt, "famStart"))
 		steps = []model.Step{st}
@@ -335,7 +335,7 @@ func genOps(rt *rapid.T) []Op {
 }
 
 func TestMachines(t *testing.T) {
-	pbt.Check(t, 400, 20000, func(rt *rapid.T) {
+	pbt.Check(t, 400, 8000, func(rt *rapid.T) {
 		c := Case{G0: gen.Graph(rt, 6, 12), G1: genSized(rt), Ops: genOps(rt)}
 		pbt.Current(rt, c)
 		if pbt.WantSample(rt) {
